@@ -28,7 +28,9 @@ CFG = "LFRicBuiltins.cfg"
 REAL_VALUES = [[-2, 1], [-1, 2], [0, 1], [1, 1], [3, 1]]     # -2, -1/2, 0, 1, 3
 INT_VALUES = [-2, -1, 0, 1, 3]
 _W = int(os.environ.get("PV_WORKERS", "0")) or None     # development: fewer processes
-FILLS = [1, 2, 3, 4]    # FortranSem!FillVal: positive / -1,0,1 / alternating sign / halves
+# FortranSem!FillVal: 2 = -1,0,1 pattern / 3 = alternating sign, no zero / 4 = halves
+# (integers: 1..n); thorough adds 1 = distinct positive values
+FILLS = {"quick": [2, 3, 4], "thorough": [1, 2, 3, 4]}
 
 
 # ------------------------------------------------------------------ matchers
@@ -60,7 +62,11 @@ def _configs(tier):
 def _threads(tier, variant):
     if variant == "plain":
         return [1]
-    return [1, 2] if tier == "quick" else [1, 2, 3]
+    if tier != "quick":
+        return [1, 2, 3]
+    # one thread is the serial loop again: quick keeps it for the
+    # reproducible-reduction code only, whose array extent depends on it
+    return [1, 2] if variant == "omp2r" else [2]
 
 
 def build_case(cap, margs, info_by_style, g, dm, ann, variant, style, lay, tier):
@@ -97,7 +103,7 @@ def build_case(cap, margs, info_by_style, g, dm, ann, variant, style, lay, tier)
             cid += "|T%d" % thr[0]
         out.append({
             "case": {"id": cid, "dm": bool(dm), "ann": bool(ann), "lay": lay, "undf": undf,
-                     "decls": decls, "dom": dom, "fills": FILLS, "threads": thr,
+                     "decls": decls, "dom": dom, "fills": FILLS.get(tier, FILLS["thorough"]), "threads": thr,
                      "prog": prog, "doc": g["doc"], "bind": bind,
                      "fields": sorted(it.data), "scalars": [d[0] for d in dom],
                      "red": red},
@@ -157,7 +163,7 @@ def n_inputs(case):
     return n
 
 
-def run_tlc(cases, workers=None, batch=500):
+def run_tlc(cases, workers=None, batch=4000):
     '''Decide the cases; returns (states, transitions, fails, discards).'''
     states = trans = 0
     fails, discards = {}, {}
@@ -240,7 +246,21 @@ def run(tier):
     meta = {b["case"]["id"]: b["meta"] for b in built}
     if len(meta) != len(cases):
         raise core.MachineryError("case ids are not unique")
-    states, trans, fails, discards = run_tlc(cases, workers=_W)
+    # cases with identical content (e.g. reprod on/off for a built-in without
+    # reduction) are decided once; the verdict is a function of the content
+    reps, same = {}, {}
+    for c in cases:
+        key = core.chash({k: v for k, v in c.items() if k != "id"})
+        rep = reps.setdefault(key, c)
+        same.setdefault(rep["id"], []).append(c["id"])
+    states, trans, fails_r, discards_r = run_tlc(list(reps.values()), workers=_W)
+    fails, discards = {}, {}
+    for rid, ids in same.items():
+        for i in ids:
+            if rid in fails_r:
+                fails[i] = [dict(r, id=i) for r in fails_r[rid]]
+            if rid in discards_r:
+                discards[i] = discards_r[rid]
     nontrivial = 0
     empty = []
     per_variant = {}
@@ -279,6 +299,7 @@ def run(tier):
                   range(0, len(cases), max(1, len(cases) // 4))][:4]
     cov = {"states": states, "transitions": trans,
            "traces_validated_against_impl": len(cases),
+           "cases_decided_by_tlc": len(reps),
            "evaluations": sum(n_inputs(c) for c in cases),
            "distinct_nontrivial": nontrivial,
            "rule": ("one case = (built-in, DM, COMPUTE_ANNEXED_DOFS, OpenMP variant, "
